@@ -4,6 +4,7 @@
    [roots]/[D] are the render result for the selected targets); hypotheses wfD/wfM as in C05. *)
 From AP Require Import Base.Str Gen.Tables Model.Deploy Model.Crash Proofs.DeployP Proofs.ConvergeP Proofs.LedgerP Proofs.RollbackP Proofs.HistoryP
   Proofs.CrashP Proofs.RerunP Proofs.RerunCrashP Proofs.ConsequencesP Proofs.BootstrapP.
+From AP Require Import Model.Status Proofs.NotExtraP.
 From AP Require Model.Render Proofs.RootsIndepP.
 Open Scope N_scope.
 
@@ -136,6 +137,30 @@ Theorem C15_bootstrap_written_is_listed : forall w roots D pl w' d i r,
   In (dkey d) (root_managed (files w') r).
 Proof. exact bootstrap_written_is_listed. Qed.
 Print Assumptions C15_bootstrap_written_is_listed.
+
+(* the last consequence: "status does not list it as extra".  For every disk, universe of paths,
+   roots and desired state: a status item for a still-desired file that is recorded by the root it
+   is reported under (each root of that directory and target records it) is never of kind extra —
+   it can only be modified or missing *)
+Theorem C15_recorded_not_extra : forall f U roots D it tp d,
+  In it (report f U roots D) ->
+  i_target it = fst tp -> i_path it = snd tp -> find_desired D tp = Some d ->
+  (forall r, In r roots -> i_root it = Some (rpath r) -> rtarget r = fst tp -> In tp (root_managed f r)) ->
+  i_kind it <> DExtra.
+Proof. exact recorded_desired_not_extra. Qed.
+Print Assumptions C15_recorded_not_extra.
+
+(* its hypotheses are met by a real report item: a recorded, desired file the user edited is
+   reported once, as modified *)
+Example C15_not_extra_nonvacuous :
+  let r := Build_root (s "codex") [s "h"; s "codex"] false in
+  let pa := [s "h"; s "codex"; s "a.md"] in
+  let f : fs := upd (upd (fun _ => None) (mf_path r) (Some (FMan (Parsed 1 (s "codex") [(s "a.md", 1)])))) pa (Some (FBytes 5)) in
+  let D := [Build_dfile (s "codex") pa 1 []] in
+  map (fun it => (i_kind it, i_target it, i_path it, i_root it)) (report f [pa] [r] D)
+    = [(DModified, s "codex", pa, Some (rpath r))] /\
+  root_managed f r = [(s "codex", pa)] /\ find_desired D (s "codex", pa) = Some (Build_dfile (s "codex") pa 1 []).
+Proof. vm_compute. repeat split; reflexivity. Qed.
 
 Example C15_continuity_refuted :
   let r := Build_root (s "codex") [s "h"; s "skills"] true in
